@@ -18,7 +18,7 @@ from .model import AnalysisError, Program, REPO
 VERIF = Path(__file__).resolve().parent.parent
 OUT = VERIF / "out"
 CACHE = OUT / "cache"
-EVIDENCE = VERIF / "evidence"
+EVIDENCE = Path(os.environ["CFDPSA_EVIDENCE_DIR"]) if os.environ.get("CFDPSA_EVIDENCE_DIR") else VERIF / "evidence"
 KNOWN = VERIF / "known_findings.json"
 
 
@@ -218,9 +218,10 @@ def run_check(pid: str, fn: Any, tier: str, level: str = "other") -> int:
     rc = 0
     if unknown:
         rc = 1
-        (OUT / "replay").mkdir(parents=True, exist_ok=True)
+        rdir = (EVIDENCE.parent / "replay") if os.environ.get("CFDPSA_EVIDENCE_DIR") else (OUT / "replay")
+        rdir.mkdir(parents=True, exist_ok=True)
         for n, f in enumerate(unknown):
-            rp = OUT / "replay" / f"{pid}-{n}.json"
+            rp = rdir / f"{pid}-{n}.json"
             rp.write_text(json.dumps({"property": pid, "rule": f.rule, "key": f.key, "message": f.message, "where": f.where,
                                       "witness": _j(f.witness), "tier": tier}, indent=1))
             print(f"[{f.rule}] {f.where} {f.message}")
@@ -252,7 +253,7 @@ def run_check(pid: str, fn: Any, tier: str, level: str = "other") -> int:
         "wall_s": round(wall, 2),
         "violations": len(unknown),
     }
-    EVIDENCE.mkdir(exist_ok=True)
+    EVIDENCE.mkdir(parents=True, exist_ok=True)
     (EVIDENCE / f"{pid}.json").write_text(json.dumps(_j(evidence), indent=1))
     print(f"{pid} [{tier}]: {len(ev.instances)} rule instances over {len(constructs)} constructs, "
           f"{len(matched)} known finding(s), {len(unknown)} violation(s), {wall:.1f}s")
